@@ -120,6 +120,7 @@ fn run_inner<P: Property>(args: &RunArgs, root: &PathBuf, start: Instant) -> i32
     let mut incomplete = vec![];
     let mut crashes: Vec<(usize, String, Option<PathBuf>)> = vec![];
     let mut max_wall = 0f64;
+    let mut agg_slowest: (f64, String) = (0.0, String::new());
     for (w, out, child, status) in children.iter_mut() {
         let mut stderr_txt = String::new();
         if let Some(mut e) = child.stderr.take() {
@@ -164,6 +165,9 @@ fn run_inner<P: Property>(args: &RunArgs, root: &PathBuf, start: Instant) -> i32
                 agg.harness_errors.extend(rep.harness_errors);
                 if !rep.completed {
                     incomplete.push(*w);
+                }
+                if rep.slowest_s > agg_slowest.0 {
+                    agg_slowest = (rep.slowest_s, rep.slowest_spec.clone());
                 }
                 if rep.wall_s > max_wall {
                     max_wall = rep.wall_s;
@@ -288,6 +292,7 @@ fn run_inner<P: Property>(args: &RunArgs, root: &PathBuf, start: Instant) -> i32
         "incomplete_workers": incomplete,
         "timed_out": timed_out,
         "health": health,
+        "slowest_case": {"seconds": agg_slowest.0, "spec_abridged": agg_slowest.1},
         "harness_errors": agg.harness_errors.iter().take(5).collect::<Vec<_>>(),
         "fixed_findings_on_record": known.fixed,
     });
